@@ -129,7 +129,8 @@ def signal_spec(draw, classes=CLASSES, nmin=0, nmax=300, dtypes=None, max_traili
             spec["bw"] = draw(freq_q())
             bw = O.fq(spec["bw"])
         # centre frequency: bw/|cf| >= ratio_lo ; optionally the whole band positive
-        lo = bw * nchan * F(51, 100) if positive_band else bw / 10**6
+        # positive band: every frequency a channel's content can hold (label +- chan_bw/2) stays > 0
+        lo = bw * (F(nchan, 2) + F(3, 4)) if positive_band else bw / 10**6
         hi = bw / F(ratio_lo)
         hi = min(hi, F(10) ** 12)
         lo = min(lo, hi)
@@ -143,7 +144,7 @@ def signal_spec(draw, classes=CLASSES, nmin=0, nmax=300, dtypes=None, max_traili
             # "round" centre: a multiple of bw/2 near val
             k = max(1, round(val / float(bw / 2)))
             if positive_band:
-                k = max(k, nchan + 1)
+                k = max(k, nchan + 2)
             val = float(bw / 2 * k)
         un = draw(st.sampled_from(["Hz", "kHz", "MHz", "GHz"]))
         v = float(F(val) / O.FREQ_UNITS[un])
